@@ -95,6 +95,8 @@ void BasePlugin__prerun(BasePlugin p, OomdContext c)
   g_prerun_act = g_prerun_act + 1;
 }
 
+uint64_t g_prerun_inst;   /* per-cgroup instances reached by prerun (cgroup-scoped rulesets; see unit ruleset_cgroup) */
+void Ruleset__prerun__h(uptr_Ruleset r, OomdContext c) { g_prerun_inst = g_prerun_inst + 1; }
 void Ruleset__pause_actions(Ruleset *self, dur_s_t duration);
 
 /* ---- an action plugin's run() (interface: any return value; may override the delay on STOP) ---- */
@@ -261,8 +263,8 @@ uint32_t Ruleset__runOnceImpl(Ruleset *self, OomdContext context)
 
 /* prerun: every group and every action of an enabled ruleset exactly once, none when disabled */
 void Ruleset__prerun(Ruleset *self, OomdContext context)
-  __CPROVER_requires(__CPROVER_is_fresh(self, sizeof(*self)) && RS_WF(self) && g_prerun_dg == 0 && g_prerun_act == 0 && ghost_exc == 0)
-  __CPROVER_assigns(g_prerun_dg, g_prerun_act)
+  __CPROVER_requires(__CPROVER_is_fresh(self, sizeof(*self)) && RS_WF(self) && g_prerun_dg == 0 && g_prerun_act == 0 && g_prerun_inst == 0 && ghost_exc == 0)
+  __CPROVER_assigns(g_prerun_dg, g_prerun_act, g_prerun_inst)
   __CPROVER_ensures(self->enabled_ ? (g_prerun_dg == self->detector_groups_.n && g_prerun_act == self->action_group_.n)
                                    : (g_prerun_dg == 0 && g_prerun_act == 0)) /*@C02*/
   __CPROVER_ensures(ghost_exc == 0);
@@ -274,6 +276,11 @@ void Ruleset__prerun(Ruleset *self, OomdContext context)
   __CPROVER_assigns(__begin2, g_prerun_act) \
   __CPROVER_loop_invariant(__begin2.i <= __begin2.n && __begin2.n == self->action_group_.n && __end2.i == __begin2.n && g_prerun_act == __begin2.i) \
   __CPROVER_decreases(__begin2.n - __begin2.i)
+
+#define LOOPC_Ruleset__prerun_3 \
+  __CPROVER_assigns(__begin2, g_prerun_inst) \
+  __CPROVER_loop_invariant(__begin2.valid && __begin2.pos <= __begin2.n && __end2.pos == __begin2.n && g_prerun_inst == __begin2.pos) \
+  __CPROVER_decreases(__begin2.n - __begin2.pos)
 
 /* ---- C13: drop-in targeting count and enablement ----
  * Inv13: numTargeted_ == number of drop-ins currently targeting this ruleset (>= 0), and
@@ -293,7 +300,7 @@ void h_Ruleset__markDropInUntargeted(void) { Ruleset *self; Ruleset__markDropInU
 #define HAVOC_GHOST() do { HAVOC(g_ctx_action); HAVOC(g_ctx_invoking); HAVOC(g_ctx_rscg); HAVOC(g_dg_next); HAVOC(g_first_fired); \
   HAVOC(g_first_action); HAVOC(g_chain_first); HAVOC(g_action_runs); HAVOC(g_last_ret); HAVOC(g_plugin_paused); HAVOC(g_plugin_until); HAVOC(g_now_calls); \
   HAVOC(g_now_hist0); HAVOC(g_now_hist1); HAVOC(g_uuid_calls); HAVOC(g_last_uuid); \
-  HAVOC(g_chain_ctx); HAVOC(g_prerun_dg); HAVOC(g_prerun_act); HAVOC(g_last_now); HAVOC(ghost_exc); \
+  HAVOC(g_chain_ctx); HAVOC(g_prerun_dg); HAVOC(g_prerun_act); HAVOC(g_prerun_inst); HAVOC(g_last_now); HAVOC(ghost_exc); \
   HAVOC(ghost_log_enabled); } while (0)
 
 void h_Ruleset__pause_actions(void)
